@@ -753,6 +753,18 @@ func variants(origin string, src []byte, r *vh.Rand, nRelayout int, stmtMax int)
 			out.Count("relayout_failed")
 		}
 	}
+	if v, n := respell(src, r, 60); v != nil {
+		out.Count("respell_files")
+		out.Stats["respelt_literals"] += n
+		checkFile(origin+"_respell", v, pickMode(r))
+		if r.Chance(30) {
+			if w := relayout(v, r, profiles[r.Intn(len(profiles))]); w != nil {
+				checkFile(origin+"_respell_relayout", w, pickMode(r))
+			}
+		}
+	} else {
+		out.Count("respell_none")
+	}
 	if r.Chance(50) {
 		if v := blankBefore(src, r); v != nil {
 			out.Count("relayout_blankbefore")
@@ -796,8 +808,20 @@ func main() {
 	if ents, err := os.ReadDir("/verif/corpus/C14"); err == nil {
 		for i, e := range ents {
 			if b, err := os.ReadFile(filepath.Join("/verif/corpus/C14", e.Name())); err == nil && strings.HasSuffix(e.Name(), ".go") {
+				// the regression mini-corpus: one rare construct per file; unchanged in two modes,
+				// then re-spelt and re-laid-out (deterministic per file and seed)
 				checkFile("corpus", b, 0)
+				checkFile("corpus", b, xparser.ParseComments|xparser.AllErrors)
 				emitStmtCases(b, r.Fork(2000+i), 50)
+				rr := r.Fork(3000 + i)
+				for j := 0; j < 2; j++ {
+					if v, _ := respell(b, rr, 80); v != nil {
+						checkFile("corpus_respell", v, pickMode(rr))
+					}
+					if v := relayout(b, rr, profiles[(i+j)%len(profiles)]); v != nil {
+						checkFile("corpus_relayout", v, pickMode(rr))
+					}
+				}
 			}
 		}
 	}
